@@ -556,6 +556,13 @@ async fn produce(sh: &Sh, tx: &mut aldrin::low_level::Sender, tag: u64, items: u
             sh.op("drop:sender");
             return;
         }
+        // applications typically watch for the receiver going away while they produce
+        if (tag + i as u64) % 3 == 0 {
+            sh.op("receiver_closed(poll)");
+            if cancel_after(tx.receiver_closed(), 1 + ((tag as u32 + i) % 12)).await.is_some() && !consumer_may_stop {
+                sh.fail("receiver-closed-spurious", format!("channel {}: receiver_closed() resolved while the consumer is alive", tag));
+            }
+        }
         sh.op("send_item");
         if let Err(e) = tx.send_item((tag, i)).await {
             if !(consumer_may_stop && e == aldrin::Error::InvalidChannel) {
